@@ -102,14 +102,14 @@ ALPHABET = 'steps: Subscribe(slot 0 with EndTo / slot 1 without; Expires absent,
            'stop_all(send_subscription_end yes/no; end-message delivery ok/refused); targets: subscription #0, #1, never issued id'
 
 
-def _hist(oid, tier, timeout, claim, what, **bind):
+def _hist(oid, tier, timeout, claim, what, twin=True, **bind):
     b = dict(bind)
     if b.get('n', 3) < 3:
         b.update(op3=0, t3=0, p3=0, q3=0)
     if b.get('n', 3) < 2:
         b.update(op2=0, t2=0, p2=0, q2=0)
     return Ob(oid, 'harness.C08', 'mgr_history', bind=b, timeout=timeout, functions=F_MGR, stubs=S_MGR, bounds=what + '; ' + ALPHABET,
-              claim=claim)
+              claim=claim, twin=twin)
 
 
 CLAIM_H = 'at every step: responses/grants consistent (granted <= requested, <= max; GetStatus = granted - elapsed), request naming ' \
@@ -132,46 +132,43 @@ def obligations(tier):
         obs.append(Ob(f'C08.send.{name}', 'harness.C08', 'send_iff_alive', bind={'is_async': a}, timeout=t, functions=F_SEND,
                       stubs=[S_CLOCK, S_POOL, S_CTOR] + ([S_ASYNC] if a else []),
                       bounds='one subscription; closed/unsubscribed bool; errors, granted, started <= now <= now+dt unbounded symbolic '
-                             'ints; filter from 5 pools, action of each report from 5 (2 literal entries, 2 proper suffixes, 1 '
-                             'unrelated); first delivery outcome from 4; 2 consecutive reports',
+                             'ints; filter (Act1, Act2) or empty; action of each report from 4 (literal first / second entry, proper '
+                             'suffix of an entry, unrelated); first delivery outcome from 4; 2 consecutive reports',
                       claim='per report: sent => not unsubscribed, not ended, not expired, errors < limit, some filter entry ends with '
                             'the action; alive and action literally in the filter => sent exactly once to NotifyTo; a failed delivery '
                             'counts towards the limit and stops the next delivery at the limit'))
-    n = 2 if quick else 3
     obs.append(Ob('C08.filter.match', 'harness.C08', 'filter_match', timeout=t, functions=[SMB + '.ActionBasedSubscription.matches'],
-                  bind={} if not quick else {'two': False}, stubs=[S_CTOR],
-                  bounds=f'filter entries: symbolic str of 1..3 chars without white space ({"1 entry" if quick else "1 or 2 entries"}); '
-                         'action: symbolic str <= 3 chars' + ('' if not quick else ''),
+                  bind={'maxlen': 2 if quick else 3}, stubs=[S_CTOR],
+                  bounds=f'1 or 2 filter entries: symbolic str of 1..{2 if quick else 3} chars without white space; action: symbolic '
+                         f'str <= {2 if quick else 3} chars',
                   claim='action literally a filter entry => matches; matches => some entry ends with the stripped action'))
-    del n
     # (c) manager histories -----------------------------------------------------------------------------------------------
-    if quick:
-        # two live subscriptions, every pair of steps (one process per first operation), all four managers by selector
-        for op1, name in enumerate(OPS):
-            obs.append(_hist(f'C08.mgr.two.{name}', tier, 90, CLAIM_H, 'all 4 managers; pre-state: two live subscriptions; 2 steps, the '
-                             f'first is "{name}"; histories are cut before a step that addresses an unsubscribed, not yet collected '
-                             'subscription (see C08.mgr.unsub.*)', pre=2, n=2, nt=3, zombies=False, op1=op1))
-        # after Unsubscribe, before housekeeping: one obligation per following operation
-        for op2, name in ((1, 'renew'), (2, 'getstatus'), (3, 'unsubscribe'), (4, 'report')):
-            obs.append(_hist(f'C08.mgr.unsub.{name}', tier, 60, CLAIM_H, 'all 4 managers; pre-state: two live subscriptions; '
-                             f'Unsubscribe(any target) then "{name}"', pre=2, n=2, nt=3, zombies=True, op1=3, op2=op2))
-        # one step from every other pre-state (no longer known identifiers, failed subscriptions, empty manager)
-        for pre in (0, 1, 3, 4, 5):
-            obs.append(_hist(f'C08.mgr.pre.{PRE[pre]}', tier, 60, CLAIM_H, f'all 4 managers; pre-state "{PRE[pre]}"; 1 step; targets '
-                             'also "no identifier at all"', pre=pre, n=1, nt=4, zombies=True))
-    else:
+    cut = 'histories are cut before a step that addresses an unsubscribed, not yet collected subscription (see C08.mgr.unsub.*)'
+    th, tm = (90, 60) if quick else (900, 600)
+    # two live subscriptions, every pair of steps (one process per first operation)
+    mgrs2 = 'managers path_sync and refparam_async' if quick else 'all 4 managers'
+    for op1, name in enumerate(OPS):
+        obs.append(_hist(f'C08.mgr.two.{name}', tier, th, CLAIM_H, f'{mgrs2}; pre-state: two live subscriptions; 2 steps, the first is '
+                         f'"{name}"; {cut}', mkset=1 if quick else 0, pre=2, n=2, nt=3 if quick else 4, zombies=False, slim=False,
+                         op1=op1))
+    # after Unsubscribe, before housekeeping: one obligation per following operation (thorough: plus any third step)
+    for op2, name in ((1, 'renew'), (2, 'getstatus'), (3, 'unsubscribe'), (4, 'report')):
+        obs.append(_hist(f'C08.mgr.unsub.{name}', tier, tm, CLAIM_H, 'all 4 managers; pre-state: two live subscriptions; '
+                         f'Unsubscribe(any target) then "{name}"' + ('' if quick else ' then any third step'), mkset=0, pre=2,
+                         n=2 if quick else 3, nt=3, zombies=True, slim=False, op1=3, op2=op2))
+    # every other pre-state (no longer known identifiers, failed subscriptions, empty manager): quick 1 step, thorough 2 steps
+    for pre in (0, 1, 3, 4, 5):
+        obs.append(_hist(f'C08.mgr.pre.{PRE[pre]}', tier, tm, CLAIM_H, f'all 4 managers; pre-state "{PRE[pre]}"; '
+                         f'{1 if quick else 2} step(s); targets also "no identifier at all"', mkset=0, pre=pre, n=1 if quick else 2,
+                         nt=4, zombies=True, slim=False))
+    if not quick:
+        # 3-step histories from two live subscriptions, one process per manager and first operation
         for mk, mname in enumerate(MGR):
-            for pre in (1, 2):
-                for op1, name in enumerate(OPS):
-                    z = op1 == 3
-                    obs.append(_hist(f'C08.mgr.{mname}.{PRE[pre]}.{name}', tier, 900, CLAIM_H,
-                                     f'manager {mname}; pre-state "{PRE[pre]}"; 3 steps, the first is "{name}"' +
-                                     ('' if z else '; histories are cut before a step that addresses an unsubscribed, not yet '
-                                                    'collected subscription (covered by the *.unsubscribe obligations)'),
-                                     mk=mk, pre=pre, n=3, nt=3, zombies=z, op1=op1))
-            for pre in (0, 3, 4, 5):
-                obs.append(_hist(f'C08.mgr.{mname}.{PRE[pre]}', tier, 600, CLAIM_H, f'manager {mname}; pre-state "{PRE[pre]}"; 2 steps; '
-                                 'targets also "no identifier at all"', mk=mk, pre=pre, n=2, nt=4, zombies=True))
+            for op1, name in enumerate(OPS):
+                obs.append(_hist(f'C08.mgr.three.{mname}.{name}', tier, th, CLAIM_H,
+                                 f'manager {mname}; pre-state: two live subscriptions; 3 steps, the first is "{name}"; requested '
+                                 f'durations only absent / 5 s; {cut}', mkset=0, mk=mk, pre=2, n=3, nt=3, zombies=False, slim=True,
+                                 op1=op1, twin=False))
     return obs
 
 
